@@ -147,18 +147,44 @@ def record_builder_traces(worker, seed, ntraces, maxlen, env=None):
 
 
 def validate_builder_traces(traces, workdir, timeout=900):
-    os.makedirs(workdir, exist_ok=True)
-    tf = os.path.join(workdir, "traces.ndjson")
-    with open(tf, "w") as f:
-        for ev in traces:
-            f.write(json.dumps(ev) + "\n")
     consts = dict(Alphabet="{}", MaxCmds="100000", MaxOpen="99", WellNestedOnly="FALSE", EmitOn="FALSE", **{"Allowed(h, c)": "TRUE"})
-    r = tlc.run_tlc("TraceBuilder", consts, workdir, init="TInit", next_="TNext", view=None, action_constraints=(),
-                    workers=1, timeout=timeout, coverage=False, env_extra={"TRACE_FILE": tf})
-    log = open(os.path.join(workdir, "tlc.log")).read()
-    m = re.search(r'<<"TRACES-CHECKED", (\d+), "rejected", (\d+)>>', log)
-    rejected = re.findall(r'<<"TRACE-REJECTED", (\d+), (\d+), "([^"]*)", "(.*)">>', log)
-    return r, (int(m.group(1)), int(m.group(2))) if m else None, rejected
+    return validate_batched("TraceBuilder", consts, "TInit", "TNext", traces, workdir, "traces.ndjson", batch=3000, timeout=timeout)
+
+
+class _Combined(object):
+    def __init__(self):
+        self.wall = 0.0
+        self.log = ""
+        self.ok = True
+
+
+def validate_batched(module, consts, init, next_, traces, workdir, filename, batch=5000, timeout=1500, invariants=()):
+    """validates `traces` with TLC in batches (the JSON reader of the CommunityModules does not survive gigabyte files);
+    returns (combined result, (ntraces, nrejected) or None, rejections with GLOBAL trace numbers)"""
+    os.makedirs(workdir, exist_ok=True)
+    comb = _Combined()
+    total, nrej, rejected = 0, 0, []
+    for b0 in range(0, max(len(traces), 1), batch):
+        part = traces[b0:b0 + batch]
+        tf = os.path.join(workdir, filename if b0 == 0 else "%s.%d" % (filename, b0 // batch))
+        with open(tf, "w") as f:
+            for tr in part:
+                f.write(json.dumps(tr) + "\n")
+        r = tlc.run_tlc(module, consts, workdir, init=init, next_=next_, view=None, action_constraints=(), invariants=list(invariants),
+                        workers=1, timeout=timeout, coverage=False, env_extra={"TRACE_FILE": tf})
+        comb.wall += r.wall
+        log = open(os.path.join(workdir, "tlc.log")).read()
+        comb.log = log
+        m = re.search(r'<<"TRACES-CHECKED", (\d+), "rejected", (\d+)>>', log)
+        if not m or int(m.group(1)) != len(part):
+            return comb, None, rejected
+        total += int(m.group(1))
+        nrej += int(m.group(2))
+        for tid, line, why, detail in re.findall(r'<<"TRACE-REJECTED", (\d+), (\d+), "([^"]*)", "(.*)">>', log):
+            rejected.append((str(int(tid) + b0), line, why, detail))
+        if b0 > 0:
+            os.unlink(tf)
+    return comb, (total, nrej), rejected
 
 
 # ====================================================================== value-operation chains (TraceSession.tla)
@@ -599,17 +625,7 @@ def record_chains(worker, seed, ntraces, maxops, env=None):
 
 
 def validate_chains(traces, workdir, timeout=1500):
-    os.makedirs(workdir, exist_ok=True)
-    tf = os.path.join(workdir, "chains.ndjson")
-    with open(tf, "w") as f:
-        for ev in traces:
-            f.write(json.dumps(ev) + "\n")
-    r = tlc.run_tlc("TraceSession", {}, workdir, init="SInit", next_="SNext", view=None, action_constraints=(),
-                    workers=1, timeout=timeout, coverage=False, env_extra={"TRACE_FILE": tf})
-    log = open(os.path.join(workdir, "tlc.log")).read()
-    m = re.search(r'<<"TRACES-CHECKED", (\d+), "rejected", (\d+)>>', log)
-    rejected = re.findall(r'<<"TRACE-REJECTED", (\d+), (\d+), "([^"]*)", "(.*)">>', log)
-    return r, (int(m.group(1)), int(m.group(2))) if m else None, rejected
+    return validate_batched("TraceSession", {}, "SInit", "SNext", traces, workdir, "chains.ndjson", timeout=timeout)
 
 
 # ====================================================================== VirtualArray sessions (TraceVirtual.tla)
@@ -669,15 +685,6 @@ def record_virtual_traces(worker, seed, ntraces, maxlen=40):
 
 
 def validate_virtual_traces(trs, workdir, timeout=900):
-    os.makedirs(workdir, exist_ok=True)
-    tf = os.path.join(workdir, "virtual-traces.ndjson")
-    with open(tf, "w") as f:
-        for tr in trs:
-            f.write(json.dumps(tr) + "\n")
     consts = dict(CacheKinds="{}", GenModes="{}", Decls="{}", Ops="{}", MaxSteps="100000", EmitOn="FALSE")
-    r = tlc.run_tlc("TraceVirtual", consts, workdir, init="TInit", next_="TNext", view=None, action_constraints=(), invariants=["TraceInv"],
-                    workers=1, timeout=timeout, coverage=False, env_extra={"TRACE_FILE": tf})
-    log = open(os.path.join(workdir, "tlc.log")).read()
-    m = re.search(r'<<"TRACES-CHECKED", (\d+), "rejected", (\d+)>>', log)
-    rejected = re.findall(r'<<"TRACE-REJECTED", (\d+), (\d+), "([^"]*)", "(.*)">>', log)
-    return r, (int(m.group(1)), int(m.group(2))) if m else None, rejected
+    return validate_batched("TraceVirtual", consts, "TInit", "TNext", trs, workdir, "virtual-traces.ndjson", batch=4000, timeout=timeout,
+                            invariants=["TraceInv"])
